@@ -67,8 +67,10 @@ Proof.
 Qed.
 
 (* ---------- what a read answers in a state of the pool with ghost order [done] ---------- *)
+(* content files are kept, and if the initial content area has no symbolic link then neither has the later one *)
+Definition CM (f0 f1 : fs) : Prop := cmono f0 f1 /\ (NoSymC f0 -> NoSymC f1).
 Definition GS (ws : list wspec) (f0 : fs) (done : list nat) (f1 : fs) : Prop :=
-  exists pl1, PInvWd hash ws f0 done (pl1, f1) /\ CProv hash ws f0 f1 /\ cmono f0 f1.
+  exists pl1, PInvWd hash ws f0 done (pl1, f1) /\ CProv hash ws f0 f1 /\ CM f0 f1.
 
 Section Pool.
 Variable ws : list wspec.
@@ -125,7 +127,7 @@ Theorem atomic_read_spec done f1 k :
   run (read hash k) f1 =
   (match fold_left kv_step (map kv_of (sel ws done)) m0 k with Some (a, d) => Ok d | None => Err ENotFound end, f1).
 Proof.
-  intros [pl1 [Hi [_ Hm]]].
+  intros [pl1 [Hi [_ [Hm _]]]].
   destruct (PInvWd_index hash HL ws f0 done pl1 f1 (proj1 Hinv0) Hwf Hi) as [Hidx [_ [Hdone Habs]]].
   assert (forall i, In i done -> (i < List.length ws)%nat) as Hlt by (intros i Hin; exact (proj1 (Hdone i Hin))).
   pose proof (rel_fold (sel ws done) _ _ rel0 k) as HR. rewrite <- (hops_sel ws done Hlt), <- Habs in HR.
@@ -184,7 +186,7 @@ Qed.
 
 Lemma gs_facts d f1 : GS ws f0 d f1 -> IndexInv f1 /\ Backed hash f1.
 Proof.
-  intros [pl1 [Hi [Hp Hm]]]. split.
+  intros [pl1 [Hi [Hp [Hm _]]]]. split.
   - exact (proj1 (PInvWd_index hash HL ws f0 d pl1 f1 (proj1 Hinv0) Hwf Hi)).
   - apply (backed_reach hash HL ws f0 pl1 f1 (proj1 Hinv0) Hb0 Hwf); [exists d; exact Hi|exact Hm].
 Qed.
@@ -212,13 +214,13 @@ Qed.
 
 Definition OInvd (ks : list bytes) (st : pool (res integrity) * pool (res bytes) * fs) : Prop :=
   let '(pl, rl, f) := st in
-  exists done, PInvWd hash ws f0 done (pl, f) /\ CProv hash ws f0 f /\ cmono f0 f /\
+  exists done, PInvWd hash ws f0 done (pl, f) /\ CProv hash ws f0 f /\ CM f0 f /\
     List.length rl = List.length ks /\
     forall j, (j < List.length ks)%nat -> rstd (nth j ks []) done f (nth j rl (Ret Stuck)).
 
 Lemma OInvd_init ks : OInvd ks (map (wprog hash) ws, map (read hash) ks, f0).
 Proof.
-  exists []. split; [exact (PInvWd_init hash ws f0 Hinv0)|]. split; [apply cprov_init|]. split; [apply cmono_refl|].
+  exists []. split; [exact (PInvWd_init hash ws f0 Hinv0)|]. split; [apply cprov_init|]. split; [split; [apply cmono_refl|intros H; exact H]|].
   split; [apply map_length|]. intros j Hj.
   rewrite (nth_indep _ (Ret Stuck) (read hash [])) by (rewrite map_length; exact Hj).
   rewrite (map_nth (read hash) ks [] j). apply Rd0.
@@ -230,7 +232,7 @@ Proof.
   - destruct Hinv as [done [Hi [Hpv [Hm [Hlen Hst]]]]].
     destruct (PInvWd_step hash HL ws f0 done _ _ Hcf Hwf Hi Hp) as [ext Hi'].
     destruct (cprov_step hash ws f0 pl f pl' f' Hcf Hc0 (ex_intro _ done Hi) Hpv Hp) as [Hpv' Hm'].
-    exists (done ++ ext). split; [exact Hi'|]. split; [exact Hpv'|]. split; [exact (cmono_trans _ _ _ Hm Hm')|]. split; [exact Hlen|].
+    exists (done ++ ext). split; [exact Hi'|]. split; [exact Hpv'|]. split; [split; [exact (cmono_trans _ _ _ (proj1 Hm) Hm')|intros Hn0; exact (nosym_step hash ws f0 pl f pl' f' (ex_intro _ done Hi) (proj2 Hm Hn0) Hp)]|]. split; [exact Hlen|].
     intros j Hj. exact (rstd_grow _ _ ext _ _ _ (Hst j Hj) Hm').
   - destruct Hinv as [done [Hi [Hpv [Hm [Hlen Hst]]]]]. inversion Hp as [pre c k post f1 E1 E2]. subst rl f1 rl'.
     set (j0 := List.length pre).
@@ -295,15 +297,50 @@ Proof.
 Qed.
 
 (* ---------- readers of two kinds in one pool: read by key (two steps) and metadata / index lookup (one step) ---------- *)
-Inductive rop := RRead (k : bytes) | RMeta (k : bytes).
-Inductive robs := OBytes (r : res bytes) | OMeta (r : res (option meta)).
+Inductive rop := RRead (k : bytes) | RMeta (k : bytes) | RHash (a : algo) (d : bytes) | RExists (a : algo) (d : bytes).
+Inductive robs := OBytes (r : res bytes) | OMeta (r : res (option meta)) | OBool (r : res bool).
 Definition wrapB (r : res bytes) : prog robs := Ret (OBytes r).
 Definition wrapM (r : res (option meta)) : prog robs := Ret (OMeta r).
+Definition wrapL (r : res bool) : prog robs := Ret (OBool r).
 Definition rprog (op : rop) : prog robs :=
-  match op with RRead k => bind (read hash k) wrapB | RMeta k => bind (find hash k) wrapM end.
+  match op with
+  | RRead k => bind (read hash k) wrapB
+  | RMeta k => bind (find hash k) wrapM
+  | RHash a d => bind (read_hash hash (sri_of hash a d)) wrapB          (* read by the address of some data *)
+  | RExists a d => bind (exists_hash (sri_of hash a d)) wrapL
+  end.
 (* the operation run atomically on a tree *)
 Definition ranswer (op : rop) (f : fs) : robs :=
-  match op with RRead k => OBytes (fst (run (read hash k) f)) | RMeta k => OMeta (fst (run (find hash k) f)) end.
+  match op with
+  | RRead k => OBytes (fst (run (read hash k) f))
+  | RMeta k => OMeta (fst (run (find hash k) f))
+  | RHash a d => OBytes (fst (run (read_hash hash (sri_of hash a d)) f))
+  | RExists a d => OBool (fst (run (exists_hash (sri_of hash a d)) f))
+  end.
+
+Lemma hash_head a d :
+  exists kk, read_hash hash (sri_of hash a d) = Do (ReadFile (InCache (cpath hash a d))) kk /\
+    (forall r, kk r = Ret (rh_answer hash (sri_of hash a d) r)) /\
+    forall f, fst (run (read_hash hash (sri_of hash a d)) f) = rh_answer hash (sri_of hash a d) (fst (exec (ReadFile (InCache (cpath hash a d))) f)).
+Proof.
+  destruct (read_hash_head hash (sri_of hash a d) (cpath hash a d) (content_path_computed hash a d HL)) as [kk [E Hk]].
+  exists kk. split; [exact E|]. split; [exact Hk|]. intros f. rewrite E. cbn [run].
+  destruct (exec (ReadFile (InCache (cpath hash a d))) f) as [r g]. rewrite Hk. reflexivity.
+Qed.
+
+Definition ex_answer (r : ret) : res bool := match r with RBool b => Ok b | _ => Stuck end.
+Lemma exists_head a d :
+  exists kk, exists_hash (sri_of hash a d) = Do (Exists (InCache (cpath hash a d))) kk /\
+    (forall r, kk r = Ret (ex_answer r)) /\
+    forall f, fst (run (exists_hash (sri_of hash a d)) f) = ex_answer (fst (exec (Exists (InCache (cpath hash a d))) f)).
+Proof.
+  unfold exists_hash, with_cpath. rewrite (content_path_computed hash a d HL). eexists. split; [reflexivity|]. split.
+  - intros r. destruct r; reflexivity.
+  - intros f. cbn [run]. destruct (exec (Exists (InCache (cpath hash a d))) f) as [r g]. destruct r; reflexivity.
+Qed.
+
+Lemma exists_same f l : snd (exec (Exists l) f) = f.
+Proof. reflexivity. Qed.
 
 Lemma find_head k :
   exists kk g, find hash k = Do (ReadFile (InCache (bucket_path hash k))) kk /\ (forall r, kk r = Ret (g r)) /\
@@ -343,7 +380,7 @@ Lemma rstd2_read_step op done pl f c K :
   snd (exec c f) = f /\ rstd2 op done f (K (fst (exec c f))).
 Proof.
   intros Hg Hi H. remember (Do c K) as r eqn:Er. destruct H as [|k n f1 Eo Hn Hg1 Hm1|n f1 Hn Hg1].
-  - destruct op as [k|k]; unfold rprog, wrapB, wrapM in Er.
+  - destruct op as [k|k|a d|a d]; unfold rprog, wrapB, wrapM, wrapL in Er.
     + destruct (bind_do _ _ _ _ (eq_sym Er)) as [kk [Ep Hk]].
       destruct (read_head hash k) as [k1 [E Hk1]]. rewrite E in Ep. injection Ep as Ec Ek. subst c kk.
       split; [apply readfile_same|]. rewrite Hk, (Hk1 f (proj1 (gs_facts done f Hg))).
@@ -352,6 +389,14 @@ Proof.
       destruct (find_head k) as [k1 [g [E [Hk1 Hrun]]]]. rewrite E in Ep. injection Ep as Ec Ek. subst c kk.
       split; [apply readfile_same|]. rewrite Hk, Hk1. cbn [bind]. rewrite <- Hrun.
       apply (S2 (RMeta k) done f (List.length done) f); [lia|rewrite firstn_all; exact Hg].
+    + destruct (bind_do _ _ _ _ (eq_sym Er)) as [kk [Ep Hk]].
+      destruct (hash_head a d) as [k1 [E [Hk1 Hrun]]]. rewrite E in Ep. injection Ep as Ec Ek. subst c kk.
+      split; [apply readfile_same|]. rewrite Hk, Hk1. cbn [bind]. rewrite <- Hrun.
+      apply (S2 (RHash a d) done f (List.length done) f); [lia|rewrite firstn_all; exact Hg].
+    + destruct (bind_do _ _ _ _ (eq_sym Er)) as [kk [Ep Hk]].
+      destruct (exists_head a d) as [k1 [E [Hk1 Hrun]]]. rewrite E in Ep. injection Ep as Ec Ek. subst c kk.
+      split; [apply exists_same|]. rewrite Hk, Hk1. cbn [bind]. rewrite <- Hrun.
+      apply (S2 (RExists a d) done f (List.length done) f); [lia|rewrite firstn_all; exact Hg].
   - subst op. unfold wrapB in Er. destruct (bind_do _ _ _ _ (eq_sym Er)) as [kk [Ep Hk]].
     destruct (gs_facts _ f1 Hg1) as [Hi1 Hb1].
     unfold phase2 in Ep. destruct (abs_idx hash f1 k) as [m|] eqn:Ea; [|discriminate].
@@ -368,13 +413,13 @@ Qed.
 
 Definition OInv2 (ops : list rop) (st : pool (res integrity) * pool robs * fs) : Prop :=
   let '(pl, rl, f) := st in
-  exists done, PInvWd hash ws f0 done (pl, f) /\ CProv hash ws f0 f /\ cmono f0 f /\
+  exists done, PInvWd hash ws f0 done (pl, f) /\ CProv hash ws f0 f /\ CM f0 f /\
     List.length rl = List.length ops /\
     forall j, (j < List.length ops)%nat -> rstd2 (nth j ops (RMeta [])) done f (nth j rl (Ret (OMeta Stuck))).
 
 Lemma OInv2_init ops : OInv2 ops (map (wprog hash) ws, map rprog ops, f0).
 Proof.
-  exists []. split; [exact (PInvWd_init hash ws f0 Hinv0)|]. split; [apply cprov_init|]. split; [apply cmono_refl|].
+  exists []. split; [exact (PInvWd_init hash ws f0 Hinv0)|]. split; [apply cprov_init|]. split; [split; [apply cmono_refl|intros H; exact H]|].
   split; [apply map_length|]. intros j Hj.
   rewrite (nth_indep _ (Ret (OMeta Stuck)) (rprog (RMeta []))) by (rewrite map_length; exact Hj).
   rewrite (map_nth rprog ops (RMeta []) j). apply S0.
@@ -386,7 +431,7 @@ Proof.
   - destruct Hinv as [done [Hi [Hpv [Hm [Hlen Hst]]]]].
     destruct (PInvWd_step hash HL ws f0 done _ _ Hcf Hwf Hi Hp) as [ext Hi'].
     destruct (cprov_step hash ws f0 pl f pl' f' Hcf Hc0 (ex_intro _ done Hi) Hpv Hp) as [Hpv' Hm'].
-    exists (done ++ ext). split; [exact Hi'|]. split; [exact Hpv'|]. split; [exact (cmono_trans _ _ _ Hm Hm')|]. split; [exact Hlen|].
+    exists (done ++ ext). split; [exact Hi'|]. split; [exact Hpv'|]. split; [split; [exact (cmono_trans _ _ _ (proj1 Hm) Hm')|intros Hn0; exact (nosym_step hash ws f0 pl f pl' f' (ex_intro _ done Hi) (proj2 Hm Hn0) Hp)]|]. split; [exact Hlen|].
     intros j Hj. exact (rstd2_grow _ _ ext _ _ _ (Hst j Hj) Hm').
   - destruct Hinv as [done [Hi [Hpv [Hm [Hlen Hst]]]]]. inversion Hp as [pre c k post f1 E1 E2]. subst rl f1 rl'.
     set (j0 := List.length pre).
@@ -441,13 +486,124 @@ Proof.
   apply Hext. intros k1. exact (proj2 (kv_step_abs f x k1 Hinv Hk1)).
 Qed.
 
+(* ---------- content observers: what is under an address after a sequential run ---------- *)
+Definition writes_at (l : loc) (x : wspec) : bool := negb (ws_rm x) && loc_eqb (InCache (x_cp hash x)) l.
+Fixpoint last_at (l : loc) (xs : list wspec) : option bytes :=
+  match xs with
+  | [] => None
+  | x :: t => match last_at l t with Some dd => Some dd | None => if writes_at l x then Some (ws_data x) else None end
+  end.
+
+Lemma last_at_some l xs dd : last_at l xs = Some dd -> exists z, In z xs /\ writes_at l z = true /\ dd = ws_data z.
+Proof.
+  induction xs as [|x t IH]; cbn [last_at]; [discriminate|]. destruct (last_at l t) as [d1|] eqn:E.
+  - intros H. inversion H; subst d1. destruct (IH eq_refl) as [z [Hz R]]. exists z. split; [right; exact Hz|exact R].
+  - destruct (writes_at l x) eqn:Ew; [|discriminate]. intros H. inversion H. exists x. split; [left; reflexivity|split; [exact Ew|reflexivity]].
+Qed.
+
+Lemma last_at_hit l xs z : In z xs -> writes_at l z = true -> last_at l xs <> None.
+Proof.
+  induction xs as [|x t IH]; [intros []|]. intros [->|Hin] Hw; cbn [last_at].
+  - destruct (last_at l t); [discriminate|]. rewrite Hw. discriminate.
+  - pose proof (IH Hin Hw) as H. destruct (last_at l t); [discriminate|contradiction].
+Qed.
+
+Lemma kv_run_content f x l :
+  CacheInv f -> kv_ok hash (kv_of x) = true -> cfile hash l ->
+  lookup (kv_run hash f (kv_of x)) l = if writes_at l x then Some (File (ws_data x)) else lookup f l.
+Proof.
+  intros Hinv Hk Hl. unfold writes_at, kv_of in Hk |- *. destruct (ws_rm x) eqn:Erm; cbn [negb andb kv_run kv_ok] in Hk |- *.
+  - pose proof (opts_ok_wf_rec hash _ _ _ Hk) as Hw.
+    destruct (remove_scope hash f (ws_key x) (ws_now x) (proj1 Hinv) Hw) as [_ [_ [_ [Hfr _]]]].
+    apply Hfr. destruct Hl as [a [d ->]]. intros p E. inversion E as [[H1 H2]]; try (vm_compute in H1; discriminate).
+  - pose proof (opts_ok_wf_rec hash _ _ _ Hk) as Hw.
+    destruct (loc_eqb (InCache (x_cp hash x)) l) eqn:El.
+    + apply loc_eqb_eq in El. subst l. exact (write_stored hash HL f Sync (ws_a x) (ws_key x) (ws_data x) (ws_now x) Hinv Hw).
+    + unfold write. rewrite (oneshot_stream hash _ _ _ _ _ f Hinv).
+      apply (stream_write_frame hash HL); [exact Hinv|exact Hl|]. rewrite concat_oneshot. cbn [write_opts algo_of].
+      intros E. assert (loc_eqb (InCache (x_cp hash x)) l = true) as R by (apply loc_eqb_eq; rewrite <- E; reflexivity). congruence.
+Qed.
+
+Lemma serial_content l xs : forall f,
+  CacheInv f -> forallb (kv_ok hash) (map kv_of xs) = true -> cfile hash l ->
+  lookup (serial f xs) l = match last_at l xs with Some dd => Some (File dd) | None => lookup f l end.
+Proof.
+  induction xs as [|x pre IH] using rev_ind; intros f Hinv Hk Hl; [reflexivity|].
+  rewrite map_app, forallb_app in Hk. apply andb_true_iff in Hk as [Hk1 Hk2]. cbn [map forallb] in Hk2. rewrite andb_true_r in Hk2.
+  unfold serial. rewrite map_app, fold_left_app. cbn [map fold_left]. fold (serial f pre).
+  rewrite (kv_run_content _ x l (proj2 (serial_abs_idx pre f [] Hinv Hk1)) Hk2 Hl), (IH f Hinv Hk1 Hl).
+  assert (forall ys, last_at l (ys ++ [x]) = if writes_at l x then Some (ws_data x) else last_at l ys) as Hla.
+  { induction ys as [|y ys IHy]; cbn [app last_at]; [destruct (writes_at l x); reflexivity|].
+    rewrite IHy. destruct (writes_at l x); reflexivity. }
+  rewrite Hla. destruct (writes_at l x); reflexivity.
+Qed.
+
+Definition content_op (op : rop) : Prop := match op with RHash _ _ | RExists _ _ => True | _ => False end.
+
+Lemma content_obs op a d f g :
+  op = RHash a d \/ op = RExists a d ->
+  lookup f (InCache (cpath hash a d)) = lookup g (InCache (cpath hash a d)) ->
+  (lookup f (InCache (cpath hash a d)) = None \/ exists d', lookup f (InCache (cpath hash a d)) = Some (File d')) ->
+  ranswer op f = ranswer op g.
+Proof.
+  intros Hop E Hs.
+  assert (resolve f (InCache (cpath hash a d)) = resolve g (InCache (cpath hash a d))) as Er.
+  { unfold resolve. rewrite <- E. destruct Hs as [Hn|[d' Hd]]; [rewrite Hn|rewrite Hd]; reflexivity. }
+  destruct Hop as [-> | ->]; unfold ranswer; f_equal.
+  - destruct (hash_head a d) as [k1 [_ [_ Hrun]]]. rewrite !Hrun. unfold exec. rewrite Er.
+    destruct (resolve g (InCache (cpath hash a d))) as [[b| |t]|]; reflexivity.
+  - destruct (exists_head a d) as [k1 [_ [_ Hrun]]]. rewrite !Hrun. unfold exec. rewrite Er. reflexivity.
+Qed.
+
+Lemma content_serial a d d1 f1 perm :
+  NoSymC f0 -> GS ws f0 d1 f1 -> Permutation perm ws ->
+  (exists d', lookup f1 (InCache (cpath hash a d)) = Some (File d') /\ lookup (serial f0 perm) (InCache (cpath hash a d)) = Some (File d')) \/
+  (lookup f1 (InCache (cpath hash a d)) = None /\ lookup (serial f0 (sel ws d1)) (InCache (cpath hash a d)) = None).
+Proof.
+  intros Hns [pl1 [Hi1 [Hp1 [Hm1 Hn1]]]] Hperm. set (l := InCache (cpath hash a d)).
+  assert (cfile hash l) as Hcf' by (exists a, d; reflexivity).
+  destruct (PInvWd_index hash HL ws f0 d1 pl1 f1 (proj1 Hinv0) Hwf Hi1) as [_ [_ [Hdone _]]].
+  pose proof Hi1 as [owns [_ [_ [_ [_ [_ [_ [_ [Hcs1 _]]]]]]]]].
+  assert (forall xs, (forall x, In x xs -> In x ws) -> forallb (kv_ok hash) (map kv_of xs) = true) as Hoks.
+  { intros xs Hsub. apply forallb_forall. intros o Ho. apply in_map_iff in Ho as [x [<- Hx]]. rewrite forallb_forall in Hok. apply Hok. apply in_map. apply Hsub. exact Hx. }
+  assert (forall z, writes_at l z = true -> ws_rm z = false /\ InCache (x_cp hash z) = l) as Hwa.
+  { intros z Hz. unfold writes_at in Hz. apply andb_true_iff in Hz as [H1 H2]. split; [destruct (ws_rm z); [discriminate|reflexivity]|apply loc_eqb_eq; exact H2]. }
+  destruct (lookup f1 l) as [[d'| |t]|] eqn:E1.
+  - left. exists d'. split; [reflexivity|].
+    rewrite (serial_content l perm f0 Hinv0 (Hoks perm (fun x Hx => Permutation_in _ Hperm Hx)) Hcf').
+    destruct (Hp1 l d' (cpath_content a d) E1) as [H0f|[y [Hy [Hwy [El ->]]]]].
+    + destruct (last_at l perm) as [dd|] eqn:Ela; [|exact H0f].
+      destruct (last_at_some l perm dd Ela) as [z [Hz [Hwz ->]]]. destruct (Hwa z Hwz) as [Hrz Hlz].
+      f_equal. f_equal. symmetry. apply (Hc0 z d' (Permutation_in _ Hperm Hz) Hrz). rewrite Hlz. exact H0f.
+    + assert (writes_at l y = true) as Hwy'.
+      { unfold writes_at. rewrite Hwy. cbn [negb andb]. apply loc_eqb_eq. symmetry. exact El. }
+      assert (In y perm) as Hyp by (apply (Permutation_in _ (Permutation_sym Hperm)); exact Hy).
+      destruct (last_at l perm) as [dd|] eqn:Ela; [|exfalso; exact (last_at_hit l perm y Hyp Hwy' Ela)].
+      destruct (last_at_some l perm dd Ela) as [z [Hz [Hwz ->]]]. destruct (Hwa z Hwz) as [Hrz Hlz].
+      f_equal. f_equal. apply (Hcf z y (Permutation_in _ Hperm Hz) Hy Hrz Hwy). congruence.
+  - exfalso. unfold l, cpath in E1. exact (proj2 (Hcs1 _ _ E1) eq_refl eq_refl).
+  - exfalso. unfold l, cpath in E1. exact (Hn1 Hns _ _ E1).
+  - right. split; [reflexivity|].
+    assert (forall x, In x (sel ws d1) -> In x ws) as Hsub.
+    { intros x Hx. unfold sel in Hx. apply in_map_iff in Hx as [i [<- Hin]]. apply nth_In. exact (proj1 (Hdone i Hin)). }
+    rewrite (serial_content l (sel ws d1) f0 Hinv0 (Hoks _ Hsub) Hcf').
+    destruct (last_at l (sel ws d1)) as [dd|] eqn:Ela.
+    + exfalso. destruct (last_at_some l _ dd Ela) as [z [Hz [Hwz _]]]. destruct (Hwa z Hwz) as [Hrz Hlz].
+      unfold sel in Hz. apply in_map_iff in Hz as [i [<- Hin]]. pose proof (proj2 (Hdone i Hin) Hrz) as Hc. rewrite Hlz in Hc. rewrite E1 in Hc. discriminate.
+    + destruct (lookup f0 l) as [[b| |t]|] eqn:E0; [| | |reflexivity]; exfalso.
+      * pose proof (Hm1 l b (cpath_content a d) E0) as H. congruence.
+      * unfold l, cpath in E0. exact (proj2 (proj1 (proj2 Hinv0) _ _ E0) eq_refl eq_refl).
+      * unfold l, cpath in E0. exact (Hns _ _ E0).
+Qed.
+
 Theorem serializable_mixed ops pl' rl' f' rs :
   oreach (map (wprog hash) ws, map rprog ops, f0) (pl', rl', f') -> results pl' = Some rs ->
   exists perm,
     Permutation perm ws /\
     rs = map (fun x => Ok (x_res hash x)) ws /\
-    (forall op, ranswer op f' = ranswer op (serial f0 perm)) /\
-    (forall j a, (j < List.length ops)%nat -> nth j rl' (Ret (OMeta Stuck)) = Ret a ->
+    (forall op, (content_op op -> NoSymC f0) -> ranswer op f' = ranswer op (serial f0 perm)) /\
+    (forall j a, (j < List.length ops)%nat -> (content_op (nth j ops (RMeta [])) -> NoSymC f0) ->
+       nth j rl' (Ret (OMeta Stuck)) = Ret a ->
        exists n, (n <= List.length perm)%nat /\ a = ranswer (nth j ops (RMeta [])) (serial f0 (firstn n perm))).
 Proof.
   intros Hr Hres.
@@ -463,12 +619,12 @@ Proof.
   { apply NoDup_Permutation; [exact Hnd|apply seq_NoDup|]. intros y. rewrite in_seq. split; [intros H; split; [lia|apply Hlt; exact H]|intros [_ H]; apply (Hall y H)]. }
   assert (Permutation (sel ws done) ws) as Hp.
   { unfold sel. pose proof (Permutation_map (fun i => nth i ws dw) Hperm) as H. rewrite (map_nth_seq ws dw) in H. exact H. }
-  (* the atomic answer at a ghost prefix is the answer after the sequential run of that prefix *)
-  assert (forall op d f1, (forall i, In i d -> In i done) -> GS ws f0 d f1 -> ranswer op f1 = ranswer op (serial f0 (sel ws d))) as Hans.
-  { intros op d f1 Hsub Hg1.
+  (* index observers: the atomic answer at a ghost prefix is the answer after the sequential run of that prefix *)
+  assert (forall op d f1, ~ content_op op -> (forall i, In i d -> In i done) -> GS ws f0 d f1 -> ranswer op f1 = ranswer op (serial f0 (sel ws d))) as Hans.
+  { intros op d f1 Hnc' Hsub Hg1.
     assert (forall x, In x (sel ws d) -> In x ws) as Hsubw.
     { intros x Hx. unfold sel in Hx. apply in_map_iff in Hx as [i [<- Hin]]. apply nth_In. apply Hlt. apply Hsub. exact Hin. }
-    destruct op as [k|k]; unfold ranswer; f_equal.
+    destruct op as [k|k|a0 d0|a0 d0]; try (exfalso; exact (Hnc' I)); unfold ranswer; f_equal.
     - rewrite (atomic_read_spec d f1 k Hg1), (serial_read_spec (sel ws d) k Hsubw). reflexivity.
     - destruct Hg1 as [pl1 [Hi1 _]].
       destruct (PInvWd_index hash HL ws f0 d pl1 f1 (proj1 Hinv0) Hwf Hi1) as [Hidx [_ [Hdone Habs]]].
@@ -478,24 +634,52 @@ Proof.
       destruct (serial_abs_idx (sel ws d) f0 k Hinv0 Hok1) as [Es Hcs].
       rewrite (find_run hash f1 k Hidx), (find_run hash _ k (proj1 Hcs)). cbn [fst]. f_equal.
       rewrite Habs, Es, (hops_sel ws d Hlt1). reflexivity. }
+  (* every observer has a position in the order *)
+  assert (forall op n f1, (content_op op -> NoSymC f0) -> (n <= List.length done)%nat -> GS ws f0 (firstn n done) f1 ->
+            exists n', (n' <= List.length (sel ws done))%nat /\ ranswer op f1 = ranswer op (serial f0 (firstn n' (sel ws done)))) as Hpos.
+  { intros op n f1 Hns Hn Hg1.
+    assert (forall a0 d0, op = RHash a0 d0 \/ op = RExists a0 d0 ->
+              exists n', (n' <= List.length (sel ws done))%nat /\ ranswer op f1 = ranswer op (serial f0 (firstn n' (sel ws done)))) as Hcont.
+    { intros a0 d0 Hop. assert (content_op op) as Hco by (destruct Hop as [-> | ->]; exact I).
+      destruct (content_serial a0 d0 (firstn n done) f1 (sel ws done) (Hns Hco) Hg1 Hp) as [[d' [E1 E2]]|[E1 E2]].
+      - exists (List.length (sel ws done)). split; [lia|]. rewrite firstn_all.
+        apply (content_obs op a0 d0 _ _ Hop); [congruence|right; exists d'; exact E1].
+      - exists n. split; [unfold sel; rewrite map_length; exact Hn|].
+        replace (firstn n (sel ws done)) with (sel ws (firstn n done)) by (unfold sel; rewrite firstn_map; reflexivity).
+        apply (content_obs op a0 d0 _ _ Hop); [congruence|left; exact E1]. }
+    destruct op as [k|k|a0 d0|a0 d0].
+    - exists n. split; [unfold sel; rewrite map_length; exact Hn|].
+      rewrite (Hans (RRead k) (firstn n done) f1 (fun H => H) (fun i Hin => firstn_in _ _ _ Hin) Hg1). unfold sel. rewrite firstn_map. reflexivity.
+    - exists n. split; [unfold sel; rewrite map_length; exact Hn|].
+      rewrite (Hans (RMeta k) (firstn n done) f1 (fun H => H) (fun i Hin => firstn_in _ _ _ Hin) Hg1). unfold sel. rewrite firstn_map. reflexivity.
+    - exact (Hcont a0 d0 (or_introl eq_refl)).
+    - exact (Hcont a0 d0 (or_intror eq_refl)). }
   exists (sel ws done). split; [exact Hp|]. split.
   { apply (nth_ext _ _ Stuck (Ok (x_res hash dw))); [rewrite map_length; exact Hlr|].
     intros n Hn. rewrite Hlr in Hn. rewrite (proj1 (Hall n Hn)). symmetry. apply (map_nth (fun x => Ok (x_res hash x)) ws dw n). }
-  split; [intros op; exact (Hans op done f' (fun i H => H) Hg)|].
-  intros j a Hj Ha. pose proof (Hst j Hj) as H. rewrite Ha in H.
-  assert (forall n f1, (n <= List.length done)%nat -> GS ws f0 (firstn n done) f1 ->
-            exists n', (n' <= List.length (sel ws done))%nat /\
-              ranswer (nth j ops (RMeta [])) f1 = ranswer (nth j ops (RMeta [])) (serial f0 (firstn n' (sel ws done)))) as Hpos.
-  { intros n f1 Hn Hg1. exists n. split; [unfold sel; rewrite map_length; exact Hn|].
-    rewrite (Hans _ (firstn n done) f1 (fun i Hin => firstn_in _ _ _ Hin) Hg1). unfold sel. rewrite firstn_map. reflexivity. }
+  split.
+  { intros op Hns.
+    assert (forall a0 d0, op = RHash a0 d0 \/ op = RExists a0 d0 -> ranswer op f' = ranswer op (serial f0 (sel ws done))) as Hcont.
+    { intros a0 d0 Hop. assert (content_op op) as Hco by (destruct Hop as [-> | ->]; exact I).
+      destruct (content_serial a0 d0 done f' (sel ws done) (Hns Hco) Hg Hp) as [[d' [E1 E2]]|[E1 E2]].
+      - apply (content_obs op a0 d0 _ _ Hop); [congruence|right; exists d'; exact E1].
+      - apply (content_obs op a0 d0 _ _ Hop); [congruence|left; exact E1]. }
+    destruct op as [k|k|a0 d0|a0 d0].
+    - exact (Hans (RRead k) done f' (fun H => H) (fun i H => H) Hg).
+    - exact (Hans (RMeta k) done f' (fun H => H) (fun i H => H) Hg).
+    - exact (Hcont a0 d0 (or_introl eq_refl)).
+    - exact (Hcont a0 d0 (or_intror eq_refl)). }
+  intros j a Hj Hns Ha. pose proof (Hst j Hj) as H. rewrite Ha in H.
   remember (Ret a) as r eqn:Er. destruct H as [|k n f1 Eo Hn Hg1 Hm1|n f1 Hn Hg1].
-  - exfalso. destruct (nth j ops (RMeta [])) as [k|k]; unfold rprog in Er.
+  - exfalso. destruct (nth j ops (RMeta [])) as [k|k|a0 d0|a0 d0]; unfold rprog in Er.
     + destruct (read_head hash k) as [k1 [E _]]. rewrite E in Er. discriminate.
     + destruct (find_head k) as [k1 [g [E _]]]. rewrite E in Er. discriminate.
-  - destruct (Hpos n f1 Hn Hg1) as [n' [Hn' E]]. exists n'. split; [exact Hn'|]. rewrite <- E, Eo. unfold ranswer.
+    + destruct (hash_head a0 d0) as [k1 [E _]]. rewrite E in Er. discriminate.
+    + destruct (exists_head a0 d0) as [k1 [E _]]. rewrite E in Er. discriminate.
+  - destruct (Hpos _ n f1 Hns Hn Hg1) as [n' [Hn' E]]. exists n'. split; [exact Hn'|]. rewrite <- E, Eo. unfold ranswer.
     destruct (phase2 hash k f1) as [v|c0 k0] eqn:Ep; [|discriminate]. cbn [bind] in Er. unfold wrapB in Er. injection Er as <-.
     rewrite (phase2_run hash k f1 (proj1 (gs_facts _ f1 Hg1))), Ep. reflexivity.
-  - destruct (Hpos n f1 Hn Hg1) as [n' [Hn' E]]. exists n'. split; [exact Hn'|]. rewrite <- E. injection Er as <-. reflexivity.
+  - destruct (Hpos _ n f1 Hns Hn Hg1) as [n' [Hn' E]]. exists n'. split; [exact Hn'|]. rewrite <- E. injection Er as <-. reflexivity.
 Qed.
 
 End Pool.
